@@ -8,23 +8,25 @@ CONSTANTS N,                          \* number of copies: 2, 3 or 4
 
 G == INSTANCE PcztGrowth
 
-VARIABLE ps
+VARIABLES ps, ready
 
 U == G!Copies(FlagSet, NsL, NoL, BskV)
 
-Init == ps \in [1 .. N -> U]
-Spec == Init /\ [][FALSE]_ps
+\* One state per choice of the copies; the theorems are state predicates.  The first copy is chosen
+\* by Init and the others by one step, so that TLC's workers share the choices (initial states are
+\* evaluated by a single thread).
+Init == /\ \E first \in U : ps = [i \in 1 .. N |-> first]
+        /\ ready = FALSE
+Pick == /\ ~ready
+        /\ ready' = TRUE
+        /\ \E rest \in [2 .. N -> U] : ps' = [i \in 1 .. N |-> IF i = 1 THEN ps[1] ELSE rest[i]]
+Spec == Init /\ [][Pick]_<<ps, ready>>
 
-Idempotent       == \A i \in 1 .. N : G!ThmIdempotent(ps[i])
-Commutative      == \A i, j \in 1 .. N : G!ThmCommutative(ps[i], ps[j])
-DefinedAgree     == G!ThmDefinedAgree(ps)
-KeepsEverything  == G!ThmKeeps(ps)
-ValueSum         == G!ThmValueSum(ps)
-AllOkIffPairwise == G!ThmAllOkIffPairwise(ps)
-Groupings        == G!ThmGroupings(ps)
-FailsIffPairwise == G!ThmFailsIffPairwise(ps)
-OffChainRefused  == G!ThmOffChainRefused(ps)
-KnownLub         == CheckLub => G!ThmKnownLub(ps[1], ps[2], U)
+Idempotent       == ready => \A i \in 1 .. N : G!ThmIdempotent(ps[i])
+Commutative      == ready => \A i, j \in 1 .. N : G!ThmCommutative(ps[i], ps[j])
+KnownLub         == ready /\ CheckLub => G!ThmKnownLub(ps[1], ps[2], U)
+\* everything that speaks about all groupings, in one predicate (the groupings are evaluated once)
+AllGroupings     == ready => G!ThmAll(ps)
 
 \* The documented limits of the pinned merge, kept as checked facts so that the restrictions Chain
 \* and SameStage above are not unexamined assumptions.
